@@ -272,6 +272,17 @@ def run_job(job, unit, workdir, log=print):
         if rc != 0:
             raise Undecided('goto-cc failed (weave/compile error): ' + (err + out)[-1500:])
         cur = gb0
+        if job.get('unwind_loops'):
+            # {cname: {AST loop ordinal: bound}} -> CBMC loop names (numbered by back-edge order)
+            items = []
+            for cn, m in job['unwind_loops'].items():
+                lm = lw.fn_info[cn]['loop_map']
+                for ordn, bound in m.items():
+                    if ordn not in lm:
+                        raise Undecided('unwind_loops: %s has no loop %s' % (cn, ordn))
+                    items.append('%s.%d:%d' % (cn, lm[ordn], bound))
+            job = dict(job)
+            job['pre_unwindset'] = ','.join(items + ([job['pre_unwindset']] if job.get('pre_unwindset') else []))
         if job.get('pre_unwind'):
             gbu = os.path.join(jd, 'a_unwound0.gb')
             cmd = ['goto-instrument', '--unwind', str(job['pre_unwind']), '--unwinding-assertions', cur, gbu]
@@ -292,7 +303,7 @@ def run_job(job, unit, workdir, log=print):
         # 2. instrument
         if mode == 'dfcc':
             gb1 = os.path.join(jd, 'b.gb')
-            cmd = ['goto-instrument', '--dfcc', hname, '--enforce-contract', job['fn']]
+            cmd = ['goto-instrument', '--no-malloc-may-fail', '--dfcc', hname, '--enforce-contract', job['fn']]
             for r in job.get('replace', []):
                 cmd += ['--replace-call-with-contract', r]
             cmd += ['--apply-loop-contracts'] if job.get('loop_contracts', True) else []
@@ -328,9 +339,9 @@ def run_job(job, unit, workdir, log=print):
         # 3. cbmc
         flags, env = solver_flags(job.get('solver'), workdir)
         checks = job.get('checks', DEFAULT_CHECKS)
-        cmd = ['cbmc', cur, '--json-ui', '--object-bits', str(job.get('objbits', 10))] + checks + flags
+        cmd = ['cbmc', cur, '--json-ui', '--object-bits', str(job.get('objbits', 10)), '--no-malloc-may-fail'] + checks + flags
         if mode == 'harness':
-            cmd += ['--no-malloc-may-fail', '--unwind', str(job.get('harness_unwind', 8)), '--unwinding-assertions']
+            cmd += ['--unwind', str(job.get('harness_unwind', 8)), '--unwinding-assertions']
         for p in job.get('properties', []):
             cmd += ['--property', p]
         if job.get('cbmc_flags'):
